@@ -187,6 +187,60 @@ func run(env *drive.Env) error {
 			w := sd.NewWorld()
 			defer w.Stop()
 			var rounds [][2]string // (round, validator) of the evidences handed to the builder so far
+			// batch > 1 (or -1 = everything): the importing node gets several blocks per InsertChain call.  The events of
+			// a block are then held back and written, block by block, when its batch has been imported.
+			batch := 1
+			if len(beh) > 0 && beh[0].Batch != 0 {
+				batch = beh[0].Batch
+			}
+			type held struct {
+				blk *types.Block
+				evs []map[string]interface{}
+			}
+			var hold []held
+			var cur *held
+			emit := func(ev map[string]interface{}) {
+				if batch == 1 {
+					env.Emit(ev)
+				} else {
+					cur.evs = append(cur.evs, ev)
+				}
+			}
+			flush := func() bool {
+				if len(hold) == 0 {
+					return true
+				}
+				var blocks types.Blocks
+				for _, h := range hold {
+					blocks = append(blocks, h.blk)
+				}
+				ierr := w.B.Bc.InsertChain(blocks)
+				ok := true
+				for _, h := range hold {
+					for _, ev := range h.evs {
+						env.Emit(ev)
+					}
+					imp := map[string]interface{}{"ev": "Imported", "blk": h.blk.NumberU64(), "err": "", "batch": len(hold)}
+					canon := w.B.Bc.GetBlockByNumber(h.blk.NumberU64())
+					imp["head"] = canon != nil && canon.Hash() == h.blk.Hash()
+					if imp["head"] == false {
+						imp["err"] = "not imported"
+						if ierr != nil {
+							imp["err"] = ierr.Error()
+						}
+						ok = false
+					}
+					imp["errc"] = errClass(fmt.Sprint(imp["err"]))
+					brs := w.B.Bc.GetReceiptsByHash(h.blk.Hash())
+					imp["rcpt"], imp["logs"], imp["stat"], imp["lidx"] = short(types.DeriveSha(brs)), logsDigest(brs), statusDigest(brs), logIndexDigest(brs)
+					env.Emit(imp)
+					if !ok {
+						break
+					}
+				}
+				hold = nil
+				return ok
+			}
 			for bi := range beh {
 				ab := &beh[bi]
 				num := w.A.Bc.CurrentBlock().NumberU64() + 1
@@ -208,6 +262,7 @@ func run(env *drive.Env) error {
 				nev0 = len(accused) // distinct validators accused about the parent round
 				kinds := map[string]bool{}
 				dberr := ""
+				cur = &held{}
 				hooks := &sd.BuildHooks{
 					Assembled: func(blk *types.Block, stateErr error) {
 						if stateErr != nil {
@@ -230,7 +285,7 @@ func run(env *drive.Env) error {
 						ev["ev"], ev["blk"], ev["pe"], ev["nev"], ev["nev0"], ev["kinds"] = "Built", num, (num+1)%per == 0, nev, nev0, ks
 						ev["dberr"] = dberr
 						ev["pen"] = hasPenalty(rs)
-						env.Emit(ev)
+						emit(ev)
 						kk := K
 						if hasPenalty(rs) && KP > kk {
 							kk = KP // penalty logs list the parties they took from: more repetitions against map-order dependence
@@ -238,7 +293,7 @@ func run(env *drive.Env) error {
 						for k := 0; k < kk; k++ {
 							r := rerun(w, w.A, blk, k, rnd)
 							r["ev"], r["blk"], r["k"], r["on"], r["errc"] = "Rerun", num, k, "A", errClass(fmt.Sprint(r["err"]))
-							env.Emit(r)
+							emit(r)
 						}
 					},
 				}
@@ -246,6 +301,16 @@ func run(env *drive.Env) error {
 				if err != nil {
 					env.Emit(map[string]interface{}{"ev": "BuildError", "blk": num, "err": err.Error()})
 					return
+				}
+				if batch != 1 {
+					cur.blk = blk
+					hold = append(hold, *cur)
+					if (batch > 1 && len(hold) >= batch) || bi == len(beh)-1 || dberr != "" {
+						if !flush() || dberr != "" {
+							return
+						}
+					}
+					continue
 				}
 				// once more on the independent chain, before it imports the block (its head is the parent)
 				r := rerun(w, w.B, blk, K+1, rnd)
